@@ -595,6 +595,41 @@ CLONE_PROOF = r'''proof {
         }'''
 
 
+SERDE_PRELUDE = r'''
+// ---- R7/A10: the serde SeqAccess the world visitor reads from.  The three element
+// deserializers (DeserializeArchetypes, DeserializeAllocator, resource::Deserializer) are
+// assumed-contract calls: what each yields is an uninterpreted function of the stream state, so
+// the visitor's contract says the world is built from exactly those three values.
+#[verifier::external_body]
+pub struct VxSeq { _p: () }
+#[verifier::external_body]
+pub struct VxErr { _p: () }
+pub struct VxResDe<T>(pub T);
+pub uninterp spec fn vx_seq_next(s: VxSeq) -> VxSeq;
+pub uninterp spec fn vx_seq_archs<R: Registry>(s: VxSeq) -> Archetypes<R>;
+pub uninterp spec fn vx_seq_len(s: VxSeq) -> usize;
+pub uninterp spec fn vx_seq_alloc<R: Registry>(s: VxSeq) -> Allocator<R>;
+pub uninterp spec fn vx_seq_res<T>(s: VxSeq) -> T;
+#[verifier::external_body]
+pub fn vx_next_archetypes<R: Registry>(seq: &mut VxSeq, len: &mut usize) -> (r: Result<Option<Archetypes<R>>, VxErr>)
+    ensures *final(seq) == vx_seq_next(*old(seq)),
+            r is Ok && r->Ok_0 is Some ==> r->Ok_0->0 == vx_seq_archs::<R>(*old(seq)) && *final(len) == vx_seq_len(*old(seq)) { unimplemented!() }
+#[verifier::external_body]
+pub fn vx_next_allocator<R: Registry>(seq: &mut VxSeq, archetypes: &Archetypes<R>) -> (r: Result<Option<Allocator<R>>, VxErr>)
+    ensures *final(seq) == vx_seq_next(*old(seq)),
+            r is Ok && r->Ok_0 is Some ==> r->Ok_0->0 == vx_seq_alloc::<R>(*old(seq)) { unimplemented!() }
+#[verifier::external_body]
+pub fn vx_next_resources<T>(seq: &mut VxSeq) -> (r: Result<Option<VxResDe<T>>, VxErr>)
+    ensures *final(seq) == vx_seq_next(*old(seq)),
+            r is Ok && r->Ok_0 is Some ==> (r->Ok_0->0).0 == vx_seq_res::<T>(*old(seq)) { unimplemented!() }
+/// `Option::ok_or_else(|| de::Error::invalid_length(n, &self))`
+#[verifier::external_body]
+pub fn vx_some_or_invalid_length<T>(o: Option<T>, n: usize) -> (r: Result<T, VxErr>)
+    ensures o is Some ==> r == Result::<T, VxErr>::Ok(o->0),
+            o is None ==> r is Err { unimplemented!() }
+'''
+
+
 def build():
     u = arch.build()
     u.name = "world"
@@ -783,6 +818,26 @@ def build():
            ensures=[("C02.entry.some_iff_live", "r is Some == old(self).view().dom().contains(entity_identifier)"),
                     ("C03.entry.that_entity", "r is Some ==> r->0.wf() && r->0.id() == entity_identifier && *r->0.world == *old(self)")],
            props=["C02", "C03", "C01"]),
+    ])
+
+    WS = "src/world/impl_serde.rs"
+    u.text(SERDE_PRELUDE)
+    SEQ = lambda n, call: (r"seq\s*\.next_element(?:_seed)?\(%s\)\?\s*\.ok_or_else\(\|\| de::Error::invalid_length\(%d, &self\)\)\?" % (call[0], n),
+                           "vx_some_or_invalid_length(%s?, %d)?" % (call[1], n),
+                           "R9: SeqAccess::next_element[_seed] + Option::ok_or_else(closure) as assumed-contract calls (A10)")
+    u.impl("impl<Registry, Resources> World<Registry, Resources> where Registry: crate::Registry", [
+        Fn(WS, r"^\s*impl<'de, Registry, Resources> Visitor<'de> for WorldVisitor<'de, Registry, Resources>", "visit_seq", ret="r",
+           emit_name="vx_visit_seq", vis="pub", generics="", where="",
+           params="mut seq: VxSeq", ret_type="Result<World<Registry, Resources>, VxErr>",
+           rewrites=[SEQ(0, (r"DeserializeArchetypes::new\(&mut len\)", "vx_next_archetypes::<Registry>(&mut seq, &mut len)")),
+                     SEQ(1, (r"DeserializeAllocator::new\(&archetypes\)", "vx_next_allocator::<Registry>(&mut seq, &archetypes)")),
+                     SEQ(2, (r"", "vx_next_resources::<Resources>(&mut seq)")),
+                     (r"resource::Deserializer<Resources>", "VxResDe<Resources>", "R7: the resource-list deserializer wrapper")],
+           ensures=[("C18.deserialize_checked", "r is Ok ==> vx_no_duplicates::<Registry>()"),
+                    ("C06.world.built_from_stream", "r is Ok ==> r->Ok_0.archetypes == vx_seq_archs::<Registry>(seq) && r->Ok_0.len == vx_seq_len(seq)"),
+                    ("C11.world.allocator_from_stream", "r is Ok ==> r->Ok_0.entity_allocator == vx_seq_alloc::<Registry>(vx_seq_next(seq))"),
+                    ("C15.deserialize.resources", "r is Ok ==> r->Ok_0.resources == vx_seq_res::<Resources>(vx_seq_next(vx_seq_next(seq)))")],
+           props=["C18", "C06", "C11", "C15"]),
     ])
     u.text(WORLD_LEMMAS)
     u.type_rewrites += [
